@@ -34,7 +34,7 @@ echo "RESULT $PROP-$X suite=$suite demo_with=$with demo_without=$without dir=$de
 if [ $suite = pass ] && [ $with = fail ] && [ $without = pass ]; then
   mkdir -p $DST
   cp /tmp/adopt-$PROP-$X.diff $DST/patch.diff
-  cp $SRC/demo_test.go $DST/demo_test.go
+  cp $SRC/demo_test.go $DST/demo_test.go.txt
   python3 - "$SRC/meta.json" "$DST/meta.json" "$PROP" "$X" "$demo_dir" <<'PY'
 import json,sys,subprocess
 src,dst,prop,x,d=sys.argv[1:6]
